@@ -27,11 +27,23 @@ theorem invP_stepM (V : Variant) (hW : WF V) (s s' : State) (k : Nat) (h : InvP 
           exact invP_stepLast V hW s s'' m m' h hmon hN hm
     · simp at hs
 
-theorem invP_stepA (V : Variant) (s s' : State) (h : InvP V s) (hs : stepA s = some s') : InvP V s' := by
+theorem invP_stepA (V : Variant) (s s' : State) (h : InvP V s) (hs : stepA V s = some s') : InvP V s' := by
   simp only [stepA] at hs
   split at hs
   · simp at hs; subst hs
     obtain ⟨a, b, c, d, e, f, g, i, j, k, l, m, n, o⟩ := h
+    have hq := List.take_append_drop (if V.arrMax = 0 then s.queue.length else V.arrMax) s.queue
+    have hnil : s.queue = [] → s.queue.take (if V.arrMax = 0 then s.queue.length else V.arrMax) = [] ∧
+        s.queue.drop (if V.arrMax = 0 then s.queue.length else V.arrMax) = [] := by
+      intro hq0; simp [hq0]
+    have hne : (s.pending ++ s.queue.take (if V.arrMax = 0 then s.queue.length else V.arrMax) ≠ [] ∨
+        s.queue.drop (if V.arrMax = 0 then s.queue.length else V.arrMax) ≠ []) → (s.pending ≠ [] ∨ s.queue ≠ []) := by
+      intro hx
+      by_cases hp : s.pending = []
+      · right; intro hq0; rcases hx with hx | hx
+        · exact hx (by simp [hp, hq0])
+        · exact hx (by simp [hq0])
+      · exact Or.inl hp
     constructor <;> simp only [lph, liter, lcur] at * <;> (try assumption)
     all_goals grind
   · simp at hs
